@@ -570,4 +570,248 @@ example : ((run (envOf exFiles 1024) 9 exMain).2.globals 1).lookup nmA = some (.
 example : Good [[82]] := by intro x hx; simp at hx; subst hx; decide
 example : fileName [47, 82] [100, 47, 97] [46, 114] = [47, 82, 47, 100, 47, 97, 46, 114] := by decide
 
+/-! ## Part C: one body run and one module object per FILE, whatever the spellings
+
+The caches of the import machine are keyed by module NAME (`module_cache_key_tie`).  The property
+speaks of modules, i.e. of files.  The bridge: for the unchanged recogniser two different
+accepted names never resolve to the same file (`accepted_names_resolve_injectively`) — an
+accepted name contains no '.', every extension starts with one — so "once per name" IS "once
+per file" (`same_file_same_module`, `import_runs_once_per_file`).  `name_ext_hypotheses_needed`
+shows the bridge is not free: as soon as a name may carry the extension itself, one file has
+two names, two cache entries, two body runs. -/
+
+theorem mem_joinSep (cs : List Path) (x : Nat) (h : x ∈ joinSep cs) : x = 47 ∨ ∃ c ∈ cs, x ∈ c := by
+  induction cs with
+  | nil => simp [joinSep] at h
+  | cons c t ih =>
+    cases t with
+    | nil => simp only [joinSep] at h; exact Or.inr ⟨c, by simp, h⟩
+    | cons d r =>
+      simp only [joinSep, List.mem_append, List.mem_cons] at h
+      rcases h with h | h | h
+      · exact Or.inr ⟨c, by simp, h⟩
+      · exact Or.inl h
+      · rcases ih h with h | ⟨c', hc', hx⟩
+        · exact Or.inl h
+        · exact Or.inr ⟨c', by simp [hc'], hx⟩
+
+theorem isIdent_dotfree (c : Path) (h : isIdent c = true) : 46 ∉ c := by
+  cases c with
+  | nil => simp
+  | cons x xs =>
+    simp only [isIdent, Bool.and_eq_true, List.all_eq_true] at h
+    intro hm
+    simp only [List.mem_cons] at hm
+    rcases hm with hm | hm
+    · exact (isIdStart_ne x h.1).2.1 hm.symm
+    · exact (isIdChar_ne 46 (h.2 46 hm)).2 rfl
+
+theorem regex_dotfree (t : Path) (h : matchesPathRegex t = true) : 46 ∉ t := by
+  intro hm
+  rw [← joinSep_split t] at hm
+  rcases mem_joinSep _ _ hm with h47 | ⟨c, hc, hx⟩
+  · omega
+  · simp only [matchesPathRegex, List.all_eq_true] at h
+    exact isIdent_dotfree c (h c hc) hx
+
+theorem validImportPath_dotfree (p : Path) (h : validImportPath p = true) : 46 ∉ p := by
+  obtain ⟨l, r, hl, hr, he⟩ := trimQuotes_spec p
+  intro hm
+  rw [he] at hm
+  simp only [List.mem_append] at hm
+  rcases hm with (hm | hm) | hm
+  · have := hl 46 hm; omega
+  · exact regex_dotfree _ h hm
+  · have := hr 46 hm; omega
+
+theorem isLexIdent_dotfree (p : Path) (h : isLexIdent p = true) : 46 ∉ p := by
+  simp only [isLexIdent, Bool.and_eq_true, Bool.not_eq_true', List.all_eq_true] at h
+  intro hm
+  exact (isLexIdentByte_ne 46 (h.2 46 hm)).2 rfl
+
+/-- **No accepted import statement can put a '.' into a module name**: for every statement form
+    and ALL token texts, each name the VM may hand to the importer is free of '.' (so it cannot
+    carry a file extension, and `name ++ ext` splits in only one way). -/
+theorem accepted_names_dotfree (sp : Spelling) (h : accepted sp = true) :
+    ∀ n ∈ requestedNames sp, 46 ∉ n := by
+  cases sp with
+  | ident x =>
+    simp only [accepted, Bool.and_eq_true] at h
+    simpa [requestedNames] using validImportPath_dotfree x h.2
+  | quoted s => simpa [requestedNames] using validImportPath_dotfree s h
+  | fromDotted ps item =>
+    simp only [accepted, Bool.and_eq_true, Bool.not_eq_true', List.all_eq_true] at h
+    have hne : ps ≠ [] := by intro e; subst e; simp at h
+    have hp : nameOK (joinSep ps) = true :=
+      joinSep_nameOK ps hne (fun p hp => isLexIdent_nameOK p (h.1.2 p hp))
+    have hj : joinParents ps = joinSep ps := cleanStr_nameOK _ hp
+    have hi := isLexIdent_nameOK item h.2
+    have hdp : 46 ∉ joinSep ps := by
+      intro hm
+      rcases mem_joinSep _ _ hm with h47 | ⟨c, hc, hx⟩
+      · omega
+      · exact isLexIdent_dotfree c (h.1.2 c hc) hx
+    have hdi := isLexIdent_dotfree item h.2
+    intro n hn
+    simp only [requestedNames, List.mem_cons, List.not_mem_nil, or_false] at hn
+    rcases hn with rfl | rfl
+    · rw [hj, join2_nameOK _ _ hp hi]
+      intro hm
+      simp only [List.mem_append, List.mem_cons] at hm
+      rcases hm with hm | hm | hm
+      · exact hdp hm
+      · omega
+      · exact hdi hm
+    · rw [hj]; exact hdp
+  | fromQuoted s item =>
+    simp only [accepted, Bool.and_eq_true] at h
+    have hp := validImportPath_nameOK s h.1
+    have hj : joinParents [s] = s := by simpa [joinParents, joinSep] using cleanStr_nameOK s hp
+    have hi := isLexIdent_nameOK item h.2
+    have hds := validImportPath_dotfree s h.1
+    have hdi := isLexIdent_dotfree item h.2
+    intro n hn
+    simp only [requestedNames, List.mem_cons, List.not_mem_nil, or_false] at hn
+    rcases hn with rfl | rfl
+    · rw [hj, join2_nameOK _ _ hp hi]
+      intro hm
+      simp only [List.mem_append, List.mem_cons] at hm
+      rcases hm with hm | hm | hm
+      · exact hds hm
+      · omega
+      · exact hdi hm
+    · rw [hj]; exact hds
+
+/-- `name ++ ext` determines the name: dot-free names, extensions that start with '.' -/
+theorem name_ext_injective (n1 n2 e1 e2 : Path) (h1 : 46 ∉ n1) (h2 : 46 ∉ n2)
+    (he1 : dottedExt e1 = true) (he2 : dottedExt e2 = true) (h : n1 ++ e1 = n2 ++ e2) :
+    n1 = n2 ∧ e1 = e2 := by
+  induction n1 generalizing n2 with
+  | nil =>
+    cases n2 with
+    | nil => exact ⟨rfl, by simpa using h⟩
+    | cons y ys =>
+      exfalso
+      cases e1 with
+      | nil => simp [dottedExt] at he1
+      | cons a as =>
+        have ha : a = 46 := by simpa [dottedExt] using he1
+        simp only [List.nil_append, List.cons_append, List.cons.injEq] at h
+        exact h2 (by rw [← h.1, ha]; simp)
+  | cons x xs ih =>
+    cases n2 with
+    | nil =>
+      exfalso
+      cases e2 with
+      | nil => simp [dottedExt] at he2
+      | cons a as =>
+        have ha : a = 46 := by simpa [dottedExt] using he2
+        simp only [List.nil_append, List.cons_append, List.cons.injEq] at h
+        exact h1 (by rw [h.1, ha]; simp)
+    | cons y ys =>
+      simp only [List.cons_append, List.cons.injEq] at h
+      have := ih ys (fun hm => h1 (by simp [hm])) (fun hm => h2 (by simp [hm])) h.2
+      exact ⟨by rw [h.1, this.1], this.2⟩
+
+/-- **Distinct accepted names resolve to distinct files** (the unchanged recogniser): for any
+    two accepted import statements in any spellings, any names `n1`, `n2` they may request, a
+    clean absolute root and any extensions that start with '.' and contain no '/': if the
+    importer's file for `n1` is the importer's file for `n2` then `n1 = n2` (and the extension
+    is the same).  So a file has exactly one module name, and the by-name caches are by-file. -/
+theorem accepted_names_resolve_injectively (sp1 sp2 : Spelling) (cb : List Path) (e1 e2 n1 n2 : Path)
+    (h1 : accepted sp1 = true) (h2 : accepted sp2 = true)
+    (hn1 : n1 ∈ requestedNames sp1) (hn2 : n2 ∈ requestedNames sp2)
+    (hcb : Good cb) (hne : cb ≠ [])
+    (hd1 : dottedExt e1 = true) (hd2 : dottedExt e2 = true) (hs1 : 47 ∉ e1) (hs2 : 47 ∉ e2)
+    (h : fileName (render true cb) n1 e1 = fileName (render true cb) n2 e2) : n1 = n2 ∧ e1 = e2 := by
+  rw [import_statement_confined sp1 cb e1 h1 hcb hne hs1 n1 hn1,
+    import_statement_confined sp2 cb e2 h2 hcb hne hs2 n2 hn2] at h
+  have h' : n1 ++ e1 = n2 ++ e2 := by
+    have := List.append_cancel_left h
+    simpa using this
+  exact name_ext_injective n1 n2 e1 e2 (accepted_names_dotfree sp1 h1 n1 hn1)
+    (accepted_names_dotfree sp2 h2 n2 hn2) hd1 hd2 h'
+
+theorem fileOf_some (env : Env) (n f : Path) (exts : List Path) (h : fileOf env n exts = some f) :
+    ∃ e ∈ exts, f = n ++ e := by
+  induction exts with
+  | nil => simp [fileOf] at h
+  | cons e es ih =>
+    simp only [fileOf] at h
+    split at h
+    · exact ⟨e, by simp, by simpa using h.symm⟩
+    · obtain ⟨e', he', hf⟩ := ih h
+      exact ⟨e', by simp [he'], hf⟩
+
+/-- in the module table: two dot-free names with the same file are the same name -/
+theorem fileOf_injective (env : Env) (hx : ∀ e ∈ env.exts, dottedExt e = true) (n1 n2 f : Path)
+    (h1 : 46 ∉ n1) (h2 : 46 ∉ n2)
+    (hf1 : fileOf env n1 env.exts = some f) (hf2 : fileOf env n2 env.exts = some f) : n1 = n2 := by
+  obtain ⟨e1, he1, rfl⟩ := fileOf_some env n1 f env.exts hf1
+  obtain ⟨e2, he2, hf⟩ := fileOf_some env n2 _ env.exts hf2
+  exact (name_ext_injective n1 n2 e1 e2 h1 h2 (hx e1 he1) (hx e2 he2) hf).1
+
+/-- **Two import statements whose names resolve to the same file yield the same module
+    object** — in one evaluation, for every module table, script and fuel, under the guard
+    `Clean`: if two module objects (the `i`-th and `j`-th ever created, under the names `n1`,
+    `n2` that accepted import statements can request, i.e. free of '.') stand for the same file
+    `f`, they are one object: same name, same globals array, created by one body run. -/
+theorem same_file_same_module (env : Env) (fuel : Nat) (main : List Stmt)
+    (h : Clean (run env fuel main).2) (hx : ∀ e ∈ env.exts, dottedExt e = true)
+    (i j : Nat) (n1 n2 f : Path) (g1 g2 : Nat)
+    (hi : (run env fuel main).2.objs[i]? = some (n1, g1))
+    (hj : (run env fuel main).2.objs[j]? = some (n2, g2))
+    (hd1 : 46 ∉ n1) (hd2 : 46 ∉ n2)
+    (hf1 : fileOf env n1 env.exts = some f) (hf2 : fileOf env n2 env.exts = some f) :
+    i = j ∧ n1 = n2 ∧ g1 = g2 := by
+  have hn := fileOf_injective env hx n1 n2 f hd1 hd2 hf1 hf2
+  subst hn
+  have hij := import_same_object env fuel main h i j n1 g1 g2 hi hj
+  subst hij
+  rw [hi] at hj
+  simp only [Option.some.injEq, Prod.mk.injEq, true_and] at hj
+  exact ⟨rfl, rfl, hj⟩
+
+/-- **Run once per FILE**: under the same hypotheses no file's top-level code runs twice — if
+    the `i`-th and the `j`-th body execution of the evaluation are executions of the same file,
+    they are the same execution. -/
+theorem import_runs_once_per_file (env : Env) (fuel : Nat) (main : List Stmt)
+    (h : Clean (run env fuel main).2) (hx : ∀ e ∈ env.exts, dottedExt e = true)
+    (i j : Nat) (n1 n2 f : Path)
+    (hi : (run env fuel main).2.ticks[i]? = some n1) (hj : (run env fuel main).2.ticks[j]? = some n2)
+    (hd1 : 46 ∉ n1) (hd2 : 46 ∉ n2)
+    (hf1 : fileOf env n1 env.exts = some f) (hf2 : fileOf env n2 env.exts = some f) : i = j := by
+  have hn := fileOf_injective env hx n1 n2 f hd1 hd2 hf1 hf2
+  subst hn
+  exact nodup_getElem_inj _ (import_runs_once env fuel main h) i j n1 hi hj
+
+/-- the by-file statement for every program, without the hypotheses on names and extensions -/
+def C14_full_runs_once_per_file : Prop :=
+  ∀ (env : Env) (fuel : Nat) (main : List Stmt), Clean (run env fuel main).2 →
+    runsOncePerFile env (run env fuel main).2 = true
+
+/-- file `a.r`, extensions `""` and `.r`: the names `a.r` (extension spelled out) and `a` are two
+    names of one file -/
+def extEnv : Env := { root := [47, 82], exts := [[], [46, 114]], files := [([97, 46, 114], [])], limit := 1024 }
+def extMain : List Stmt := [.imp [97, 46, 114] nmP, .imp nmA nmQ]
+
+/-- **The hypotheses cannot be dropped**: when a module name may carry the extension (here an
+    extension list with the empty extension; equally a recogniser that lets `.risor` through and
+    an importer that does not append it twice) ONE file gets TWO names: the by-name caches miss,
+    the body runs twice in a clean evaluation and the two aliases hold two module objects with
+    two globals arrays — although no NAME ran twice. -/
+theorem name_ext_hypotheses_needed : ¬ C14_full_runs_once_per_file := by
+  intro h
+  have := h extEnv 5 extMain ((cleanRun_iff _).1 (by decide))
+  revert this
+  decide
+
+example : (run extEnv 5 extMain).2.ticks = [[97, 46, 114], [97]] := by decide
+example : runsOnce (run extEnv 5 extMain).2 = true := by decide
+example : oneObjectPerFile extEnv (run extEnv 5 extMain).2 = false := by decide
+example : (run extEnv 5 extMain).2.objs = [([97, 46, 114], 1), ([97], 2)] := by decide
+-- the same two statements against the usual extension list reach one file once
+example : runsOncePerFile (envOf exFiles 1024) (run (envOf exFiles 1024) 9 exMain).2 = true := by decide
+example : reachedFile (envOf exFiles 1024) (.quoted nmA) = some nmA := by decide
+
 end Risor.C14
